@@ -3,6 +3,8 @@ import JSight.Props.C01_Scanner
 import JSight.Props.C01_Term
 import JSight.Props.C07
 import JSight.Props.C04_Bridge
+import JSight.Gen.BuildTable
+import JSight.Props.C02_Located
 /-!
 # The composed model (`Model/Project.lean`): totality, and the seams between the stages
 
@@ -66,7 +68,15 @@ def bad : PErr → Bool
   | .paste .fuel => true
   | _ => false
 
-theorem flush_not_bad (st : ASt) (e : PErr) (h : flush st = .error e) : bad e = false := by
+/-- the diagnostics of the scan of a single file (scanner, assembly, context resolution) -/
+def early : PErr → Bool
+  | .scan _ | .oracleMiss _ _ | .includeSeen _ | .unknownDirective _ | .notAllowed _ | .noDirective _ | .param _ _ | .ctx _ _ => true
+  | _ => false
+
+theorem early_not_bad {e : PErr} (h : early e = true) : bad e = false := by
+  cases e <;> first | rfl | cases h
+
+theorem flush_early (st : ASt) (e : PErr) (h : flush st = .error e) : early e = true := by
   unfold flush at h
   cases hc : st.cur with
   | none => simp [hc] at h
@@ -76,8 +86,8 @@ theorem flush_not_bad (st : ASt) (e : PErr) (h : flush st = .error e) : bad e = 
     | error x => simp only [hp] at h; injection h with h; subst h; rfl
     | ok c => simp [hp] at h
 
-theorem step_not_bad (d : Src) (banned : List Kind) (st : ASt) (lex : Lexeme) (cur : Nat) (e : PErr)
-    (h : step d banned st lex cur = .error e) : bad e = false := by
+theorem step_early (d : Src) (banned : List Kind) (st : ASt) (lex : Lexeme) (cur : Nat) (e : PErr)
+    (h : step d banned st lex cur = .error e) : early e = true := by
   unfold step at h
   cases hty : lex.ty
   case keyword =>
@@ -85,7 +95,7 @@ theorem step_not_bad (d : Src) (banned : List Kind) (st : ASt) (lex : Lexeme) (c
     split at h
     · injection h with h; subst h; rfl
     · cases hf : flush st with
-      | error x => simp only [hf] at h; injection h with h; subst h; exact flush_not_bad st _ hf
+      | error x => simp only [hf] at h; injection h with h; subst h; exact flush_early st _ hf
       | ok st1 =>
         simp only [hf] at h
         cases hk : kindOfKeyword (d.slice lex.b lex.e1) with
@@ -107,7 +117,7 @@ theorem step_not_bad (d : Src) (banned : List Kind) (st : ASt) (lex : Lexeme) (c
   case contextClose =>
     simp only [hty] at h
     cases hf : flush st with
-    | error x => simp only [hf] at h; injection h with h; subst h; exact flush_not_bad st _ hf
+    | error x => simp only [hf] at h; injection h with h; subst h; exact flush_early st _ hf
     | ok st1 =>
       simp only [hf] at h
       cases hc : closeExplicit st1.ctx.frames st1.ctx.roots with
@@ -120,18 +130,18 @@ theorem step_not_bad (d : Src) (banned : List Kind) (st : ASt) (lex : Lexeme) (c
     | some r => simp [hc] at h
 
 /-- the assembly of directives has no partial operation: it never produces a fault -/
-theorem steps_not_bad (d : Src) (banned : List Kind) : ∀ (l : List (Lexeme × Nat)) (st : ASt) (e : PErr),
-    steps d banned st l = .error e → bad e = false
+theorem steps_early (d : Src) (banned : List Kind) : ∀ (l : List (Lexeme × Nat)) (st : ASt) (e : PErr),
+    steps d banned st l = .error e → early e = true
   | [], st, e, h => by simp [steps] at h
   | (lex, cur) :: r, st, e, h => by
     unfold steps at h
     cases hs : step d banned st lex cur with
-    | ok st' => simp only [hs] at h; exact steps_not_bad d banned r st' e h
-    | error x => simp only [hs] at h; injection h with h; subst h; exact step_not_bad d banned st lex cur _ hs
+    | ok st' => simp only [hs] at h; exact steps_early d banned r st' e h
+    | error x => simp only [hs] at h; injection h with h; subst h; exact step_early d banned st lex cur _ hs
 
 /-- **the scan of the composed model never faults** -/
-theorem scan_not_bad (content : Bytes) (o : Oracle) (banned : List Kind) (e : PErr)
-    (h : scan content o banned = .error e) : bad e = false := by
+theorem scan_early (content : Bytes) (o : Oracle) (banned : List Kind) (e : PErr)
+    (h : scan content o banned = .error e) : early e = true := by
   unfold scan at h
   cases hu : firstInvalidUTF8 content with
   | some i => simp only [hu] at h; injection h with h; subst h; rfl
@@ -144,7 +154,7 @@ theorem scan_not_bad (content : Bytes) (o : Oracle) (banned : List Kind) (e : PE
     rcases res with ⟨lexs, stop, sc⟩
     simp only at hstop h
     cases hs : steps (Src.ofArray content.toArray) banned {} lexs with
-    | error x => simp only [hs] at h; injection h with h; subst h; exact steps_not_bad _ _ _ _ _ hs
+    | error x => simp only [hs] at h; injection h with h; subst h; exact steps_early _ _ _ _ _ hs
     | ok st =>
       simp only [hs] at h
       cases stop with
@@ -161,12 +171,23 @@ theorem scan_not_bad (content : Bytes) (o : Oracle) (banned : List Kind) (e : PE
       | none =>
         simp only at h
         cases hf : flush st with
-        | error x => simp only [hf] at h; injection h with h; subst h; exact flush_not_bad st _ hf
+        | error x => simp only [hf] at h; injection h with h; subst h; exact flush_early st _ hf
         | ok st1 =>
           simp only [hf] at h
           split at h
           · injection h with h; subst h; rfl
           · cases h
+
+theorem flush_not_bad (st : ASt) (e : PErr) (h : flush st = .error e) : bad e = false :=
+  early_not_bad (flush_early st e h)
+
+theorem step_not_bad (d : Src) (banned : List Kind) (st : ASt) (lex : Lexeme) (cur : Nat) (e : PErr)
+    (h : step d banned st lex cur = .error e) : bad e = false :=
+  early_not_bad (step_early d banned st lex cur e h)
+
+theorem scan_not_bad (content : Bytes) (o : Oracle) (banned : List Kind) (e : PErr)
+    (h : scan content o banned = .error e) : bad e = false :=
+  early_not_bad (scan_early content o banned e h)
 
 /-- **C01 for the composed model: no fault, for every content, oracle and ban set.**  The run of
 scanner table → assembly → context resolution → PASTE expansion → catalog construction never ends in something Go
@@ -600,6 +621,127 @@ theorem processFS_not_bad (fs : PFS) (o : Nat → Oracle) (banned : List Kind) (
         rw [hb] at h
         simp only at h
         injection h with h; subst h; rfl
+
+/-! ## where the diagnostics of the catalog construction point (C02 for the composed model) -/
+
+mutual
+  /-- the decoration numbers the directives of the forest in pre-order, from `k` on -/
+  theorem decoTree_flat (d : Src) (done : List RDir) :
+      ∀ (t : Tree) (k : Nat),
+        C04B.flat (decoTree d done t k).1 = (preorderT t).mapIdx (fun i x => toBDir d done (k + i) x) ∧
+        (decoTree d done t k).2 = k + (preorderT t).length
+    | .node x kids, k => by
+      have ih := decoForest_flat d done kids (k + 1)
+      simp only [decoTree, C04B.flat, preorderT, List.mapIdx_cons, List.length_cons, Nat.add_zero]
+      refine ⟨?_, by rw [ih.2]; omega⟩
+      rw [ih.1]
+      congr 1
+      apply List.ext_getElem?
+      intro i
+      simp only [List.getElem?_mapIdx]
+      cases (preorderF kids)[i]? <;> simp [Nat.add_assoc, Nat.add_comm 1 i]
+  theorem decoForest_flat (d : Src) (done : List RDir) :
+      ∀ (f : List Tree) (k : Nat),
+        C04B.flatF (decoForest d done f k).1 = (preorderF f).mapIdx (fun i x => toBDir d done (k + i) x) ∧
+        (decoForest d done f k).2 = k + (preorderF f).length
+    | [], k => by simp [decoForest, C04B.flatF, preorderF]
+    | t :: r, k => by
+      have h1 := decoTree_flat d done t k
+      have h2 := decoForest_flat d done r (decoTree d done t k).2
+      simp only [decoForest, C04B.flatF, preorderF, List.length_append]
+      refine ⟨?_, by rw [h2.2, h1.2]; omega⟩
+      rw [h1.1, h2.1, h1.2, List.mapIdx_append]
+      congr 1
+      apply List.ext_getElem?
+      intro i
+      simp only [List.getElem?_mapIdx]
+      cases (preorderF r)[i]? <;> simp [Nat.add_assoc, Nat.add_comm i]
+end
+
+theorem toBDir_id (d : Src) (done : List RDir) (id : Nat) (x : Dir) : (toBDir d done id x).id = id := by
+  unfold toBDir; split <;> rfl
+
+/-- **C02 for the composed model, catalog-construction stage**: a diagnostic of that stage is located at the keyword
+of a directive of the expanded forest of the document (never at the fallback position of `buildErrAt`) -/
+theorem process_build_error_at {content : Bytes} {o : Oracle} {banned : List Kind} {e : Build.BErr} {i be : Nat}
+    (h : process content o banned = .error (.build e i be)) :
+    ∃ forest done expanded x, scan content o banned = .ok (forest, done) ∧ expand forest = .ok expanded ∧
+      (preorderF expanded)[e.id]? = some x ∧ x.id = i := by
+  unfold process at h
+  cases hs : scan content o banned with
+  | error x =>
+    simp only [hs] at h; injection h with h; subst h
+    -- the scan reports no diagnostic of the catalog construction
+    exact absurd (scan_early content o banned _ hs) (by simp [early])
+  | ok p =>
+    rcases p with ⟨forest, done⟩
+    simp only [hs] at h
+    cases he : expand forest with
+    | error x => simp only [he] at h; cases h
+    | ok expanded =>
+      simp only [he] at h
+      have hflat := decoForest_flat (Src.ofArray content.toArray) done expanded 0
+      generalize hbf : decoForest (Src.ofArray content.toArray) done expanded 0 = bf at h hflat
+      rcases bf with ⟨bf, n⟩
+      simp only at h hflat
+      cases hc : Build.compile banned bf with
+      | ok c => simp [hc] at h
+      | error x =>
+        simp only [hc] at h
+        rcases C02L.compile_error_located banned bf x hc with ⟨bd, hbd, hid⟩
+        rw [hflat.1] at hbd
+        rcases List.mem_mapIdx.mp hbd with ⟨j, hj, rfl⟩
+        rw [toBDir_id] at hid
+        have hget : (preorderF expanded)[x.id]? = some (preorderF expanded)[j] := by
+          rw [← hid]; simp [List.getElem?_eq_getElem hj]
+        unfold buildErrAt at h
+        rw [hget] at h
+        simp only at h
+        injection h with h
+        injection h with h1 h2 h3
+        subst h1
+        exact ⟨forest, done, expanded, _, rfl, he, hget, h2⟩
+
+/-! ## the order of the steps of the scan phase, from the source
+
+`Gen.scanCalls` (regenerated on every run from `core/scan_project*.go` and `core/include.go`) lists every call of the
+functions of the scan phase in source order.  The assembly of `Model/Project.lean` (`step`, `flush`, `runLexs`, `runFile`)
+performs its steps in a certain ORDER — the pending directive is placed before anything else happens at a keyword, at an
+INCLUDE, at ")" and at the end of a file; a banned kind is refused after that and before the directive exists; the
+included file's name is read, validated, joined, looked up, and only then is the scanner pushed and the file opened.
+These are facts about the source, checked here against the regenerated table (a call added elsewhere in these functions
+does not disturb them; a step that is moved, removed or renamed does). -/
+
+/-- in the function `fn` of the scan phase, a call of `a` occurs and the first one precedes the first call of `b` -/
+def calledBefore (fn a b : String) : Bool :=
+  match Gen.scanCalls.lookup fn with
+  | none => false
+  | some cs =>
+    match cs.findIdx? (· == a), cs.findIdx? (· == b) with
+    | some i, some j => decide (i < j)
+    | _, _ => false
+
+/-- `f` calls every step of the chain, in this order -/
+def chain (fn : String) : List String → Bool
+  | a :: b :: r => calledBefore fn a b && chain fn (b :: r)
+  | _ => true
+
+theorem scan_phase_order :
+    -- the loop: lexemes of the current scanner, then the end of the file, then the including scanner
+    chain "scanProject" ["core.drainCurrentScanner", "core.processEOF", "core.isScanningFinished"] = true ∧
+    chain "drainCurrentScanner" ["core.scanner.Next", "isIncludeKeyword", "core.processInclude", "core.next"] = true ∧
+    -- a keyword: the previous directive is placed, JSIGHT is refused in an included file, the new directive is made
+    chain "processKeyword" ["core.processCurrentDirective", "core.scannersStack.Empty", "core.setCurrentDirective"] = true ∧
+    chain "setCurrentDirective" ["directive.NewDirectiveType", "core.checkBannedDirective", "directive.NewWithCallStack"] = true ∧
+    -- ")" and the end of a file
+    chain "processContextEnd" ["core.processCurrentDirective", "core.closeLastExplicitContext"] = true ∧
+    chain "processEOF" ["core.processCurrentDirective", "core.HasUnclosedExplicitContext"] = true ∧
+    -- INCLUDE (F42: the previous directive first; C18: the ban before any file is looked at)
+    chain "processInclude" ["core.processCurrentDirective", "core.checkBannedDirective", "core.getIncludedFilePath", "readFile",
+      "core.scannersStack.Push", "scanner.NewJApiScanner"] = true ∧
+    chain "getIncludedFilePath" ["core.scanner.Next", "validateIncludeFileName", "filepath.Join", "os.Stat"] = true ∧
+    -- a parameter goes through `AppendParameter` of the current directive
+    chain "processParameter" ["lexemeWithoutDirective", "core.currentDirective.AppendParameter"] = true := by decide
 
 /-! ## non-vacuity: a concrete document through all the stages -/
 
